@@ -34,7 +34,7 @@ SimFeatures == {"cancel", "unknowncancel"}
 Emit == /\ clock = 0
         /\ PrintT(ToJson([np |-> NP, vers |-> VerTable, steps |-> hist]))
         /\ clock' = 1
-        /\ UNCHANGED <<cfgv, epoch, job, stage, sched, running, rctx, cancelPending, waitList, shut,
+        /\ UNCHANGED <<cfgv, epoch, job, stage, sched, running, rctx, cancelPending, waitList, shut, store, logs, persist,
                        nops, nreloads, nticks, runs, stop, ack, last, ev, obs, pre, hist>>
 
 Budget == Len(hist) >= SimLen \/ nops >= MaxOps
